@@ -416,7 +416,7 @@ func TestVerif_C06(t *testing.T) {
 	for _, r := range c06FidelityRoutes {
 		musts = append(musts, "fidelity_ok["+r+"]")
 	}
-	musts = append(musts, "fidelity_prefix_sharing_uris", "fidelity_custom_prefix_uris", "ch_conc:so-rd", "ch_conc:form-rd", "ch_conc:so-xarr", "ch_conc:start-rd")
+	musts = append(musts, "fidelity_prefix_sharing_uris", "fidelity_custom_prefix_uris", "fidelity_long_uris", "ch_conc:so-rd", "ch_conc:form-rd", "ch_conc:so-xarr", "ch_conc:start-rd")
 	for _, ch := range []string{"so-rd", "so-xarr", "form-rd", "page-error", "xf-so", "page-403", "cb-state"} {
 		musts = append(musts, "kept_wire:"+ch)
 	}
@@ -637,7 +637,7 @@ func c06Fidelity(run *vfRun) {
 				if atomic.AddInt64(&reported[routeIdx[route]], 1) > 1 {
 					return // one witness per route
 				}
-				run.Violation("c06:fidelity:"+route, fmt.Sprintf("route %s: requested %s before login, landed on %s (status %d, err %v)", route, c06Quote(uri), c06Quote(got), st, err),
+				run.Violation("c06:fidelity:"+route, fmt.Sprintf("route %s: requested %s (%d bytes) before login, landed on %s (%d bytes; status %d, err %v)", route, vfTrunc(c06Quote(uri), 120), len(uri), vfTrunc(c06Quote(got), 120), len(got), st, err),
 					c06Case{Channel: "fidelity:" + route, Input: c06Quote(uri), Status: st, Where: "Location", Output: c06Quote(got), Flags: p.Flags, Note: reqNote + "; expected Location " + c06Quote(want)})
 				return
 			}
@@ -711,6 +711,18 @@ func c06Fidelity(run *vfRun) {
 		r4 := def.plain.Do(vfNewReq("POST", "/oauth2/sign_in").WithBody("application/x-www-form-urlencoded", []byte("username="+c06User+"&password="+c06Pass+"&rd="+vfQueryEscape(uri))))
 		check("form-login", def.plain, uri, uri, r4, nil, "POST /oauth2/sign_in rd=<uri>")
 		derived(def, uri, wire)
+		// long targets (900 ... 8000 bytes: long paths, long and many query parameters): the state has to carry all of it
+		if i%4 == 0 {
+			long := c06SafeLongURI(run.Env.Seed, i, []int{900, 1100, 2000, 4000, 8000}[(i/4)%5])
+			run.Count("fidelity_long_uris", 1)
+			b = vfNewBrowser("")
+			_, cb, err = b.Login(def.plain, vfStdIdentity, long)
+			check("start-rd", def.plain, long, long, cb, err, "GET /oauth2/start?rd=<uri> -> IdP -> callback (long target)")
+			b = vfNewBrowser("")
+			_, cb, err = b.Login(def.b64, vfStdIdentity, long)
+			check("start-rd-b64", def.b64, long, long, cb, err, "GET /oauth2/start?rd=<uri> (encode-state, PKCE; long target)")
+			derived(def, long, false)
+		}
 		// a path that shares the default prefix as a string
 		st := c06Mix(uint64(run.Env.Seed)*31 + uint64(i))
 		sfx := c06PrefixSuffixes[i%len(c06PrefixSuffixes)]
